@@ -245,7 +245,7 @@ def run_certs(goals, tag, nshards=None, timeout=1500):
             for _, text, _ in shards[k]:
                 f.write(text)
         try:
-            rc, out = sh("timeout %d coqc -noglob -Q %s OV -w -notation-overridden cert_%d.v 2>&1" % (timeout, COQDIR, k), timeout=timeout + 30, cwd=d)
+            rc, out = sh_coq("timeout %d coqc -noglob -Q %s OV -w -notation-overridden cert_%d.v 2>&1" % (timeout, COQDIR, k), timeout=timeout + 30, cwd=d)     # a killed shard is run again
         except subprocess.TimeoutExpired:
             rc, out = 124, "timeout"
         return k, rc, out
